@@ -204,6 +204,11 @@ fn oracle(policy: &str, pipe: &Pipe, nvals: usize, noisy_gaps: &[usize], clean: 
 
 fn tokens(two: bool) -> Vec<Vec<u8>> {
     let mut v: Vec<Vec<u8>> = NOISE.iter().map(|b| vec![*b]).collect();
+    // words that are values in other notations (made only of bytes that cannot start a JSON value), and byte sequences
+    // that look like UTF-8 but denote no character (an encoded surrogate, a code point above U+10FFFF, an overlong form)
+    for w in [&b"NaN"[..], b"True", b"Null", b"NaNa", b"'a'", b"NULL", b"Ia", b"\xed\xa0\x80", b"\xed\xbf\xbf", b"\xf4\x90\x80\x80", b"\xc0\xaf", b"\xe0\x80\xaf", b"\xf8\x88\x80\x80\x80"] {
+        v.push(w.to_vec());
+    }
     if two {
         for a in NOISE {
             for b in NOISE {
